@@ -47,6 +47,12 @@ impl DetectProp for C10 {
         if idx % 4 == 2 {
             c = declared_ascii_case(rng);
         }
+        if idx % 8 == 5 {
+            c = declared_self_case(rng);
+        }
+        if idx % 16 == 7 {
+            c = multi_candidate_case(rng);
+        }
         c
     }
     fn oracle(&self, cx: &mut Ctx, case: &Case, raw: &RealRaw) {
